@@ -74,9 +74,16 @@ def check(rep):
         use = coarse if (tier == "quick" or len(names) > 2) else atoms
         for val in valuations(names, use):
             cases.append((tree, label, val))
-    results = pmap(eval_case, [(t, v, "at") for (t, l, v) in cases])
+    cases = [(t, l, v, "at") for (t, l, v) in cases]
+    # the same expression object evaluated earlier at other points (C02 must hold whatever came before)
+    for tree, label in inst1 + inst2:
+        names = spec.variables(tree)
+        if names and len(names) <= 2:
+            for val in valuations(names, coarse):
+                cases.append((tree, label + " after other evaluations", val, "at-after-other"))
+    results = pmap(eval_case, [(t, v, api) for (t, l, v, api) in cases])
     per_class = {}
-    for (tree, label, val), res in zip(cases, results):
+    for (tree, label, val, _api), res in zip(cases, results):
         before = len(rep.violations) + len(rep.inconclusive)
         judge(rep, tree, label, val, res)
         ok = (len(rep.violations) + len(rep.inconclusive)) == before
@@ -89,7 +96,7 @@ def check(rep):
             rep.ok("C02.node-outcome", label, model.cls(cname).where if cname in model.classes else "",
                    f"{n} region/parameter cases: outcome = documented domain", cases=n)
     for i in (0, len(cases) // 3, 2 * len(cases) // 3, len(cases) - 1):
-        t, l, v = cases[i]
+        t, l, v, _a = cases[i]
         rep.sample({"instance": spec.show(t), "regions": region_class(v),
                     "outcomes": [r.get("exc") or r.get("status") for r in results[i]]})
     for k in unknown_classes:
